@@ -300,16 +300,23 @@ int vnadata_set_format(vnadata_t *vdp, const char *format)
      * Replace the current format vector.
      */
 update:
-    free((void *)vdip->vdi_format_vector);
-    vdip->vdi_format_vector = vfdp_new;
-    vfdp_new = NULL;
-    vdip->vdi_format_count = nfields;
+    {
+	vnadata_format_descriptor_t *vfdp_old = vdip->vdi_format_vector;
+	int old_count = vdip->vdi_format_count;
 
-    /*
-     * Update the format string.
-     */
-    if (_vnadata_update_format_string(vdip) == -1) {
-	goto out;
+	vdip->vdi_format_vector = vfdp_new;
+	vdip->vdi_format_count = nfields;
+
+	/*
+	 * Update the format string.  On failure, keep the old format.
+	 */
+	if (_vnadata_update_format_string(vdip) == -1) {
+	    vdip->vdi_format_vector = vfdp_old;
+	    vdip->vdi_format_count = old_count;
+	    goto out;
+	}
+	free((void *)vfdp_old);
+	vfdp_new = NULL;
     }
     rc = 0;
 
